@@ -124,6 +124,9 @@ func (proj *Project) load(index bool) (err error) {
 		if err := proj.loadIndex(); err == nil {
 			return nil
 		}
+		// The index is unusable: forget whatever was taken from it and load the project in full.
+		proj.flags = map[string]*Flag{}
+		proj.targets = map[string]*runTarget{}
 	}
 
 	if err := os.MkdirAll(proj.temp, 0755); err != nil {
